@@ -512,7 +512,7 @@ impl Driver for C12 {
         }
     }
     fn rule(&self) -> String {
-        "G-model models (all strata; 40% with an extra coefficient from {1e-9, -1e-9, 3e-7, -1e-6, 1e9, -2.5e8, 123456.789, -0.1} in objective, a row and the offset) compiled by the real Linearizer; both Model::to_string() and LinearModel::to_string() are fed to RoocParser::type_check, parse_and_transform and Linearizer::linearize again; the result must have the same objective, offset and the same multiset of rows (names, relation, rhs, coefficients to 1e-12) and the same domains (a domain that the second propagation pass tightens further is accepted only if the certified extreme values of the original model stay inside it); the text of render(compile(render(L))) must equal render(L). non-trivial = both routes round-trip".into()
+        "G-model models (all strata; 40% with an extra coefficient from {1e-9, -1e-9, 3e-7, -1e-6, 1e9, -2.5e8, 123456.789, -0.1} in objective, a row and the offset) compiled by the real Linearizer; both Model::to_string() and LinearModel::to_string() are fed to RoocParser::type_check, parse_and_transform and Linearizer::linearize again; the result must have the same objective, offset and the same multiset of rows (names, relation, rhs, coefficients to 1e-12) and the same domains (a domain that the second propagation pass tightens further is accepted only if the certified extreme values of the original model stay inside it); the text of render(compile(render(L))) must equal render(L). non-trivial = both routes round-trip 4% of the models come from the bound-after-use family (abs{x} <= y then y <= k and four relatives, through the text door): their first compilation is at the fixed point of the bound propagation, so any tighter re-compiled range is a violation; ranges are compared with infinities equal only to themselves; named rows that are already false must keep their names; the rendering of the re-compiled model must compile as well.".into()
     }
     fn thresholds(&self, tier: Tier) -> Thresholds {
         let s = tier.pick(8, 120);
